@@ -35,29 +35,29 @@ type CallbackSpec struct {
 }
 
 type FuncContract struct {
-	Pkg       string // import path
-	Key       string // "Recv.Name" or "Name", closures "Name$1"
-	File      string
-	Line      int
-	Pure      bool
-	Trusted   bool // contract assumed, body not verified (must be listed in evidence)
-	NoVerify  bool
-	Returns   []string
-	Requires  []*Clause
-	Ensures   []*Clause
-	Panics    []*Clause // "panics when cond": reaching a panic is allowed only under cond ... informational
-	NoPanic   []*Clause
-	Modifies  []string
-	HasModifies bool
-	Loops     map[int]*LoopContract
-	Callbacks []*CallbackSpec
-	ForkJoin  string
-	Footprint [2]Expr // half-open interval of element indices a forked worker may touch
+	Pkg          string // import path
+	Key          string // "Recv.Name" or "Name", closures "Name$1"
+	File         string
+	Line         int
+	Pure         bool
+	Trusted      bool // contract assumed, body not verified (must be listed in evidence)
+	NoVerify     bool
+	Returns      []string
+	Requires     []*Clause
+	Ensures      []*Clause
+	Panics       []*Clause // "panics when cond": reaching a panic is allowed only under cond ... informational
+	NoPanic      []*Clause
+	Modifies     []string
+	HasModifies  bool
+	Loops        map[int]*LoopContract
+	Callbacks    []*CallbackSpec
+	ForkJoin     string
+	Footprint    [2]Expr // half-open interval of element indices a forked worker may touch
 	FootprintSrc string
-	Props     []string
-	Ghost     []string
-	Opaque    bool
-	used      bool
+	Props        []string
+	Ghost        []string
+	Opaque       bool
+	used         bool
 }
 
 type Lemma struct {
@@ -85,10 +85,10 @@ type SpecFunc struct {
 }
 
 type Contracts struct {
-	Funcs  map[string]*FuncContract // pkg + "::" + key
-	Lemmas []*Lemma
-	Specs  map[string]*SpecFunc // pkg + "::" + name ; also "::"+name for global
-	Files  []string
+	Funcs   map[string]*FuncContract // pkg + "::" + key
+	Lemmas  []*Lemma
+	Specs   map[string]*SpecFunc // pkg + "::" + name ; also "::"+name for global
+	Files   []string
 	Trusted []string
 }
 
